@@ -246,7 +246,7 @@ class ExprParser:
             a = self.binop(op, a, b)
             if op in ("==", "!=") and self.peek() in ("==", "!="):
                 self.bad("chained comparison")
-        if self.peek() in ("+", "-", "*", "/", "%", "<", ">", ".", ","):
+        if self.peek() in ("+", "-", "*", "/", "%", "<", ">", "."):
             self.bad("operator %r" % self.peek())
         return a
 
@@ -301,6 +301,12 @@ class ExprParser:
 
     def cast(self, env):
         e = self.unary(env)
+        while self.peek() == "." and self.t[self.i + 1:self.i + 4] == ["into", "(", ")"]:
+            # `.into()` in a u64 position: the value-preserving widening From<uN> for u64
+            self.i += 4
+            if not isinstance(e[1], int):
+                self.bad(".into() on a non-integer")
+            e = ("cast", 64, e, e[1])
         while self.peek() == "as":
             self.take()
             ty = self.take()
@@ -358,6 +364,15 @@ class ExprParser:
         if tok == self.recv:
             self.take(".")
             field = self.take()
+            if field == "get_register_always" and self.peek() == "(":
+                # the forwarded CpuContext call, as a variable of the context's Register type
+                for want in ("(", "reg", ")"):
+                    self.take(want)
+                return ("var", self.tr.widths[self.ctx], "$ga")
+            if field == "register_is_valid" and self.peek() == "(":
+                for want in ("(", "reg", ",", "&", "self", ".", "valid", ")"):
+                    self.take(want)
+                return ("bvar", "bool", "$iv")
             idx = None
             if self.peek() == "[":
                 self.take()
@@ -389,7 +404,7 @@ def fix_widths(e, where):
         if e[1] is None:
             die("%s: untyped literal left in accessor expression" % where)
         return e
-    if k in ("loc", "var", "blit"):
+    if k in ("loc", "var", "blit", "bvar"):
         return e
     if k == "not":
         sub = e[2]
@@ -463,8 +478,8 @@ class Tr:
             die("%s: const %s: initialiser has type u%s" % (where, nm, e[1]))
         return ("lit", width, const_eval(e, where + " const " + nm))
 
-    def accessor(self, text, ctxname, where, recv="ctx"):
-        """an arm of get_stack_pointer / get_instruction_pointer -> typed expression of width 64"""
+    def accessor(self, text, ctxname, where, recv="ctx", want=64):
+        """an arm of a MinidumpContext dispatch method -> typed expression (u64, or bool)"""
         p = ExprParser(self, tokenize(text, where), ctxname, where, recv)
         e = p.block({})
         if p.peek() is not None:
@@ -472,8 +487,8 @@ class Tr:
         if e[1] is None:
             e = p.typed(e, 64)
         e = fix_widths(e, where)
-        if e[1] != 64:
-            die("%s: accessor arm has type %s, expected u64" % (where, e[1]))
+        if e[1] != want:
+            die("%s: arm has type %s, expected %s" % (where, e[1], "u64" if want == 64 else want))
         return e
 
     # ---------------------------------------------------------------- locations
@@ -767,21 +782,17 @@ class Tr:
         if pre or post:
             die(w + "get_register_always: code around the match")
         for v, rhs in seen.items():
-            want = "ctx.get_register_always(reg)" + (".into()" if self.widths[variants[v]] == 32 else "")
-            if rhs != want:
-                die(w + "get_register_always %s: %r, expected %r" % (v, rhs, want))
+            out[v]["md_get"] = self.accessor(rhs, variants[v], w + "get_register_always " + v)
         seen, pre, post = arms_of("get_register", r"&self\.raw")
         if pre != "let valid =" or post != "; if valid { Some(self.get_register_always(reg)) } else { None }":
             die(w + "get_register: shape changed: %r ... %r" % (pre, post))
         for v, rhs in seen.items():
-            if rhs != "ctx.register_is_valid(reg, &self.valid)":
-                die(w + "get_register %s: %r" % (v, rhs))
+            out[v]["md_valid"] = self.accessor(rhs, variants[v], w + "get_register " + v, want="bool")
         seen, pre, post = arms_of("valid_registers", r"&self\.raw")
         if pre != "self.registers().filter(move |(reg, _)|" or post != ")":
             die(w + "valid_registers: shape changed: %r ... %r" % (pre, post))
         for v, rhs in seen.items():
-            if rhs != "ctx.register_is_valid(reg, &self.valid)":
-                die(w + "valid_registers %s: %r" % (v, rhs))
+            out[v]["md_filter"] = self.accessor(rhs, variants[v], w + "valid_registers " + v, want="bool")
         if norm(fns["registers"][1]) != "self.general_purpose_registers() .iter() .map(move |&reg| (reg, self.get_register_always(reg)))":
             die(w + "registers: shape changed: %r" % norm(fns["registers"][1]))
         seen, pre, post = arms_of("general_purpose_registers", r"self\.raw")
@@ -850,6 +861,8 @@ class Tr:
             t["sp_acc"] = disp[v]["sp_acc"]
             t["ip_acc"] = disp[v]["ip_acc"]
             t["memo_cmp"] = self.memo_cmp
+            for key in ("md_get", "md_valid", "md_filter"):
+                t[key] = disp[v][key]
             t["fields"] = [(f, wl[0], -1 if wl[1] is None else wl[1]) for f, wl in self.structs[cname].items() if wl is not None]
             t["gpr"] = tables[disp[v]["gpr_of"]]["registers"]
             t["gpr_of"] = disp[v]["gpr_of"]
@@ -884,8 +897,8 @@ def show_aexp(e):
         return "%#x" % e[2]
     if k == "blit":
         return "true" if e[2] else "false"
-    if k == "var":
-        return e[2]
+    if k in ("var", "bvar"):
+        return {"$ga": "ctx.get_register_always(reg)", "$iv": "ctx.register_is_valid(reg, &self.valid)"}.get(e[2], e[2])
     if k == "cast":
         return "(%s as u%d)" % (show_aexp(e[2]), e[1])
     if k in ("not", "bnot"):
@@ -929,6 +942,8 @@ def coq_bexp(e):
     k = e[0]
     if k == "blit":
         return "(BLit %s)" % ("true" if e[2] else "false")
+    if k == "bvar":
+        return "(BVar %s)" % coq_str(e[2])
     if k in ("eq", "ne"):
         return "(%s %s %s)" % ("BEq" if k == "eq" else "BNe", coq_aexp(e[2]), coq_aexp(e[3]))
     if k in ("band", "bor"):
@@ -986,6 +1001,11 @@ def emit(tables):
         o.append("  ct_sp_acc := %s;" % coq_aexp(t["sp_acc"]))
         o.append("  (* get_instruction_pointer: %s *)" % show_aexp(t["ip_acc"]))
         o.append("  ct_ip_acc := %s;" % coq_aexp(t["ip_acc"]))
+        o.append("  (* MinidumpContext::get_register_always arm: %s; get_register tests %s; valid_registers filters by %s *)"
+                 % (show_aexp(t["md_get"]), show_aexp(t["md_valid"]), show_aexp(t["md_filter"])))
+        o.append("  ct_md_get := %s;" % coq_aexp(t["md_get"]))
+        o.append("  ct_md_valid := %s;" % coq_bexp(t["md_valid"]))
+        o.append("  ct_md_filter := %s;" % coq_bexp(t["md_filter"]))
         o.append("  ct_fields := %s;" % coq_list("(%s, %d, %s)" % (coq_str(f), w, coq_z(n)) for f, w, n in t["fields"]))
         o.append("  ct_gpr := %s" % coq_list(coq_str(r) for r in t["gpr"]))
         o.append("|}.")
